@@ -32,10 +32,20 @@ VERDICT_OF_EXIT = {0: "PASS", 1: "FAIL", 2: "TIMEOUT", 3: "ERROR", 4: "ERROR", 5
 KINDS = ["loop", "loop", "loop_call", "loop_const", "loop_setup", "width", "depth", "depth", "stuck", "inv_loop"]
 
 
-def emit_counted_loop(a, bound_emit, ctr=0x1C0):
-    """i = 0; while (i < bound) i++;  leaves i at memory ctr"""
+def emit_counted_loop(a, bound_emit, ctr=0x1C0, shape="while"):
+    """i = 0; while (i < bound) i++;  leaves i at memory ctr.  shape "taken": the same loop with the test at the bottom and the
+    continuing edge on the *taken* side of the JUMPI (Yul / via-IR / Vyper style), so --loop cuts the taken side"""
     top, end = a.fresh("ltop"), a.fresh("lend")
     a.push(0).push(ctr).op("MSTORE")
+    if shape == "taken":
+        chk = a.fresh("lchk")
+        a.jump(chk)
+        a.label(top)
+        a.push(1).push(ctr).op("MLOAD").op("ADD").push(ctr).op("MSTORE")
+        a.label(chk)
+        bound_emit(a)
+        a.push(ctr).op("MLOAD").op("LT").jumpi(top)  # i < bound -> next iteration
+        return
     a.label(top)
     bound_emit(a)
     a.push(ctr).op("MLOAD").op("LT").op("ISZERO").jumpi(end)  # !(i < bound) -> exit
@@ -60,6 +70,7 @@ class Scenario:
     def __init__(self, ch, force_kind=None):
         self.ch = ch
         self.kind = ch.choose(KINDS, "s.kind")
+        self.shape = ch.choose(["while", "while", "taken"], "s.shape")
         if force_kind:
             self.kind = force_kind
         self.loop = ch.choose([2, 1, 3, 4], "s.loop")
@@ -76,7 +87,7 @@ class Scenario:
             abis = []
         if k in ("loop", "loop_call"):
             def loop_body(a):
-                emit_counted_loop(a, lambda a_: (a_.push(self.mask), a_.push(4), a_.op("CALLDATALOAD"), a_.op("AND")))
+                emit_counted_loop(a, lambda a_: (a_.push(self.mask), a_.push(4), a_.op("CALLDATALOAD"), a_.op("AND")), shape=self.shape)
                 emit_fail_if_eq(a, self.k)
             if k == "loop":
                 fns[self.sig] = loop_body
@@ -103,7 +114,7 @@ class Scenario:
             self.options["loop"] = self.loop
 
             def body(a):
-                emit_counted_loop(a, lambda a_: a_.push(self.c))
+                emit_counted_loop(a, lambda a_: a_.push(self.c), shape=self.shape)
                 # fails iff n == 9 after the concrete loop ran c times
                 ok = a.fresh("ok")
                 a.push(4).op("CALLDATALOAD").push(9).op("EQ").op("ISZERO").jumpi(ok)
@@ -123,7 +134,7 @@ class Scenario:
                 A.emit_vm_call(a, "assume(bool)", [lambda a_: (a_.push(self.mask), a_.push(0x400), a_.op("MLOAD"), a_.op("AND"),
                                                                 a_.push(self.t), a_.op("EQ"))], mem=0x500)
                 a.op("POP")
-                emit_counted_loop(a, lambda a_: (a_.push(self.mask), a_.push(0x400), a_.op("MLOAD"), a_.op("AND")))
+                emit_counted_loop(a, lambda a_: (a_.push(self.mask), a_.push(0x400), a_.op("MLOAD"), a_.op("AND")), shape=self.shape)
                 a.push(0x1C0).op("MLOAD").push(0).op("SSTORE")
                 a.op("STOP")
 
@@ -189,7 +200,7 @@ class Scenario:
                 if self.loop_in_invariant:
                     a.push(self.mask).push(4).op("CALLDATALOAD").op("AND").push(0).op("SSTORE").op("STOP")
                     return
-                emit_counted_loop(a, lambda a_: (a_.push(self.mask), a_.push(4), a_.op("CALLDATALOAD"), a_.op("AND")))
+                emit_counted_loop(a, lambda a_: (a_.push(self.mask), a_.push(4), a_.op("CALLDATALOAD"), a_.op("AND")), shape=self.shape)
                 a.push(0x1C0).op("MLOAD").push(0).op("SSTORE").op("STOP")
 
             def target_other(a):
@@ -223,7 +234,7 @@ class Scenario:
                 a.push(sel << 224).push(0x300).op("MSTORE")
                 a.push(0x20).push(0x320).push(4).push(0x300).push(0).op("SLOAD").push(0xFFFF).op("STATICCALL").op("POP")
                 if self.loop_in_invariant:
-                    emit_counted_loop(a, lambda a_: (a_.push(0x320), a_.op("MLOAD")))
+                    emit_counted_loop(a, lambda a_: (a_.push(0x320), a_.op("MLOAD")), shape=self.shape)
                     a.push(0x1C0).op("MLOAD").push(0x320).op("MSTORE")
                 ok = a.fresh("ok")
                 a.push(0x320).op("MLOAD").push(self.k).op("EQ").op("ISZERO").jumpi(ok)
@@ -455,7 +466,7 @@ class C10Check:
             faults[kf] = faults.get(kf, 0) + nf
         res = dict(violations=vio, inconclusive=incon, faults=faults, probes=probes, digest=out.sim.digest(),
                    shape=shape, nontrivial=nontrivial or probes.get("flagged", 0) > 0, sim_seconds=out.sim.now, steps=out.sim.steps,
-                   descriptor=dict(kind=sc.kind, options=sc.options, mask=sc.mask, K=sc.k, history=sc.history, fails=fails,
+                   descriptor=dict(kind=sc.kind, loop_shape=sc.shape, options=sc.options, mask=sc.mask, K=sc.k, history=sc.history, fails=fails,
                                    results=[(c, [(r.name, r.exitcode, r.num_bounded_loops) for r in rs]) for c, rs, _, _ in (out.results or [])],
                                    warnings=[m[:120] for m in out.warnings[-4:]]))
         if keep_log:
